@@ -18,16 +18,32 @@ type wsEvent struct {
 	kind string // new, disc, msg
 	id   string
 	data string
+	ch   string // identity of the Channel object (one per connection)
 }
 
 type srvCtx struct {
 	s    ws.Server
+	chs  map[ws.Channel]int // identity of every Channel object seen (kept referenced: no address reuse)
 	mu   sync.Mutex
 	log  []wsEvent
 	port int
 	// per-event hooks (optional)
 	onNew func(ch ws.Channel)
 	onMsg func(ch ws.Channel, data []byte)
+}
+
+func (c *srvCtx) chid(ch ws.Channel) string {
+	c.mu.Lock()
+	defer c.mu.Unlock()
+	if c.chs == nil {
+		c.chs = map[ws.Channel]int{}
+	}
+	n, ok := c.chs[ch]
+	if !ok {
+		n = len(c.chs) + 1
+		c.chs[ch] = n
+	}
+	return fmt.Sprintf("#%d", n)
 }
 
 func (c *srvCtx) add(e wsEvent) {
@@ -113,14 +129,14 @@ func startWsServer(o srvOpts) *srvCtx {
 		s.SetTimeoutConfig(*o.timeouts)
 	}
 	s.SetNewClientHandler(func(ch ws.Channel) {
-		c.add(wsEvent{"new", ch.ID(), ""})
+		c.add(wsEvent{"new", ch.ID(), "", c.chid(ch)})
 		if c.onNew != nil {
 			c.onNew(ch)
 		}
 	})
-	s.SetDisconnectedClientHandler(func(ch ws.Channel) { c.add(wsEvent{"disc", ch.ID(), ""}) })
+	s.SetDisconnectedClientHandler(func(ch ws.Channel) { c.add(wsEvent{"disc", ch.ID(), "", c.chid(ch)}) })
 	s.SetMessageHandler(func(ch ws.Channel, data []byte) error {
-		c.add(wsEvent{"msg", ch.ID(), string(data)})
+		c.add(wsEvent{"msg", ch.ID(), string(data), c.chid(ch)})
 		if c.onMsg != nil {
 			c.onMsg(ch, data)
 		}
